@@ -8,7 +8,7 @@ use crate::types::*;
 use crate::util::*;
 use crate::world::*;
 use raft::eraftpb::{Entry, EntryType, Message, MessageType, Snapshot};
-use raft::{ProgressState, Ready, StateRole};
+use raft::{SnapshotStatus, ProgressState, Ready, StateRole};
 use std::collections::BTreeSet;
 
 #[derive(Clone, Debug)]
@@ -1845,4 +1845,52 @@ impl World {
             );
         }
     }
+    /// C20: every public RawNode entry point an application may call between Ready rounds is
+    /// offered to a clone of the node, whatever its role (leader, follower, candidate, learner,
+    /// removed node): none may panic. Each call runs on a clone of its own.
+    pub fn check_api_probe(&self, i: usize, ctx: &mut Ctx) {
+        let Some(l) = self.live(i) else { return };
+        let me = i as u64 + 1;
+        let other = (i as u64 + 1) % self.n() as u64 + 1;
+        let unknown = 99u64;
+        let mut probe = |name: &str, f: &mut dyn FnMut(&mut Rn)| {
+            ctx.stat(Stat::ApiProbes);
+            let mut c = l.rn.clone();
+            if let Err((msg, loc)) = guarded(|| f(&mut c)) {
+                ctx.v(
+                    "C20",
+                    format!("panic in {} (probe on a clone): {}", name, msg.lines().next().unwrap_or("").chars().map(|ch| if ch.is_ascii_digit() { '#' } else { ch }).collect::<String>()),
+                    format!("node {} ({:?}): {} panicked: {} @ {}", me, l.rn.raft.state, name, msg, loc),
+                );
+            }
+        };
+        probe("read_index", &mut |c| c.read_index(vec![0xee]));
+        probe("request_snapshot", &mut |c| {
+            let _ = c.request_snapshot();
+        });
+        probe("ping", &mut |c| c.ping());
+        probe("campaign", &mut |c| {
+            if c.raft.promotable() {
+                let _ = c.campaign();
+            }
+        });
+        for to in [me, other, unknown] {
+            probe("transfer_leader", &mut |c| c.transfer_leader(to));
+        }
+        for to in [other, unknown] {
+            probe("report_unreachable", &mut |c| c.report_unreachable(to));
+            probe("report_snapshot(Finish)", &mut |c| c.report_snapshot(to, SnapshotStatus::Finish));
+            probe("report_snapshot(Failure)", &mut |c| c.report_snapshot(to, SnapshotStatus::Failure));
+        }
+        probe("propose", &mut |c| {
+            let _ = c.propose(vec![], vec![0xee]);
+        });
+        probe("propose_conf_change(remove unknown)", &mut |c| {
+            let mut cc = raft::eraftpb::ConfChange::default();
+            cc.set_change_type(raft::eraftpb::ConfChangeType::RemoveNode);
+            cc.node_id = unknown;
+            let _ = c.propose_conf_change(vec![], cc);
+        });
+    }
+
 }
